@@ -300,6 +300,7 @@ package lintcmd
 //@ extern bufio.NewReader(rd io.Reader) *bufio.Reader
 //@   modifies ghost.rdpos
 //@   ensures result != nil && brSrc(result) == rd && get(rdpos, result) == 0 && (forall b *bufio.Reader :: {b in rdpos} b != result ==> (b in rdpos) == (b in old(rdpos)) && rdpos[b] == old(rdpos)[b])
+//@   ensures [fresh] !(box(result, *bufio.Reader) in gobpos)
 // a chunk ends in the delimiter unless it is the last one; reading past the end yields ("", EOF);
 // the unterminated last chunk is returned TOGETHER WITH io.EOF (documented behaviour of ReadString)
 //@ ghost terminated(c string) bool
@@ -319,6 +320,66 @@ package lintcmd
 //@   ensures  [all] result1 == nil ==> len(result0) == nConf(chunks(r), len(chunks(r)))
 //@   loop 1   invariant [br]    br != nil && brSrc(br) == r && 0 <= get(rdpos, br) && get(rdpos, br) <= len(chunks(r))
 //@   loop 1   invariant [count] len(builds) == nConf(chunks(r), get(rdpos, br))
+
+// ---- "-merge merges every run of its inputs": an input is a concatenation of gob streams, one
+// per run. gobRuns(r): how many runs r's content holds; gobpos[r]: how many have been consumed.
+// gob.NewDecoder documents: "If r does not also implement io.ByteReader, it will be wrapped in a
+// bufio.Reader" -- such a decoder reads ahead and what it buffered is lost with it, so one
+// decoder per run consumes exactly one run per Decode only on a reader that is an io.ByteReader;
+// nothing is promised about the position after a Decode on any other reader.
+//@ ghost gobRuns(r io.Reader) int
+//@ axiom [gob_len] forall r io.Reader :: {gobRuns(r)} gobRuns(r) >= 0
+//@ ghostvar gobpos map[io.Reader]int
+//@ ghost decSrc(d *gob.Decoder) io.Reader
+//@ extern encoding/gob.NewDecoder(r io.Reader) *gob.Decoder
+//@   ensures result != nil && decSrc(result) == r
+//@ extern (*encoding/gob.Decoder).Decode(e any) error
+//@   modifies heap, ghost.gobpos
+//@   ensures  [others] forall q io.Reader :: {q in gobpos} q != decSrc(recv) ==> (q in gobpos) == (q in old(gobpos)) && gobpos[q] == old(gobpos)[q]
+//@   ensures  [one]    istype(decSrc(recv), io.ByteReader) && get(old(gobpos), decSrc(recv)) < gobRuns(decSrc(recv)) ==> result != io.EOF && (result == nil ==> get(gobpos, decSrc(recv)) == get(old(gobpos), decSrc(recv)) + 1)
+//@   ensures  [bound]  istype(decSrc(recv), io.ByteReader) && get(old(gobpos), decSrc(recv)) <= gobRuns(decSrc(recv)) ==> get(old(gobpos), decSrc(recv)) <= get(gobpos, decSrc(recv)) && get(gobpos, decSrc(recv)) <= gobRuns(decSrc(recv))
+//@   ensures  [eof]    istype(decSrc(recv), io.ByteReader) && get(old(gobpos), decSrc(recv)) >= gobRuns(decSrc(recv)) ==> result == io.EOF && get(gobpos, decSrc(recv)) == get(old(gobpos), decSrc(recv))
+//@ func runFromLintResult
+//@   trusted
+//@ func decodeGob
+//@   requires [bytereader] istype(br, io.ByteReader)
+//@   requires [pos] 0 <= get(gobpos, br) && get(gobpos, br) <= gobRuns(br)
+//@   may_panic
+//@   nosafe   all
+//@   modifies heap, ghost.gobpos
+//@   ensures  [all] result1 == nil ==> len(result0) == gobRuns(br) - get(old(gobpos), br)
+//@   ensures  [pos] 0 <= get(gobpos, br) && get(gobpos, br) <= gobRuns(br)
+//@   ensures  [others] forall q io.Reader :: {q in gobpos} q != br ==> (q in gobpos) == (q in old(gobpos)) && gobpos[q] == old(gobpos)[q]
+//@   loop 1   invariant [pos]   0 <= get(gobpos, br) && get(gobpos, br) <= gobRuns(br)
+//@   loop 1   invariant [count] len(runs) == get(gobpos, br) - get(old(gobpos), br)
+//@   loop 1   invariant [others] forall q io.Reader :: {q in gobpos} q != br ==> (q in gobpos) == (q in old(gobpos)) && gobpos[q] == old(gobpos)[q]
+
+// -merge hands decodeGob readers it has wrapped in a bufio.Reader (an io.ByteReader) and that
+// nothing has been read from yet: the two obligations are decodeGob's preconditions at the
+// two call sites.
+// library calls of -merge that neither read nor write a gob stream (they do not touch gobpos)
+//@ extern (*flag.FlagSet).Args() []string
+//@ extern fmt.Fprintln(w io.Writer, a []any) (n int, err error)
+//@   modifies heap
+//@ extern os.Open(name string) (f *os.File, err error)
+//@   ensures err == nil ==> f != nil
+//@ ghost gobConsistent(m map[io.Reader]int) bool = forall q io.Reader :: {q in m} (q in m) ==> 0 <= m[q] && m[q] <= gobRuns(q)
+//@ func (*Command).merge$1
+//@   requires gobConsistent(gobpos)
+//@   may_panic
+//@   nosafe   all
+//@   abstract defer
+//@   modifies heap, ghost.gobpos, ghost.rdpos
+//@   ensures  gobConsistent(gobpos)
+//@   at call decodeGob assert [fromstart] get(gobpos, arg0) == 0
+//@ func (*Command).merge
+//@   requires cmd != nil && gobConsistent(gobpos)
+//@   may_panic
+//@   nosafe   all
+//@   abstract defer
+//@   modifies heap, ghost.gobpos, ghost.rdpos
+//@   loop 1   invariant [consistent] gobConsistent(gobpos)
+//@   at call decodeGob assert [fromstart] get(gobpos, arg0) == 0
 
 // The de-duplication in printDiagnostics merges the build names of ADJACENT problems with the
 // same descriptor, so the sort order has to keep problems with equal descriptor adjacent: the
